@@ -10,7 +10,7 @@ from ..properties import (
     HashesProperty, IDProperty, ListProperty, Property, ReferenceProperty,
     SelectorProperty, StringProperty, TimestampProperty, TypeProperty,
 )
-from ..utils import NOW, _get_dict
+from ..utils import NOW, Precision, _get_dict
 from .base import _STIXBase20
 from .vocab import HASHING_ALGORITHM
 
@@ -25,8 +25,12 @@ def _should_set_millisecond(cr, marking_type):
             return True
         else:
             return False
-    # datetime objects are written like every other STIX 2.0 timestamp
-    return True
+    # datetime objects: millisecond precision like every other STIX 2.0
+    # timestamp, unless that would add a fraction to a whole-second value
+    # which was not given with millisecond precision
+    if getattr(cr, 'precision', None) == Precision.MILLISECOND:
+        return True
+    return bool(cr.microsecond)
 
 
 class ExternalReference(_STIXBase20):
